@@ -53,6 +53,22 @@ def run(ctx):
     tokens = statics.generation_tokens(prog, cg, acc)
     ctx.extra["generation_token_statics"] = tokens
     process_wide |= set(tokens)
+    # configuration: a static that nothing reachable from running or building a query ever writes (only an explicit
+    # setter the user calls does) cannot differ "because of the queries that ran before"
+    qroots = list(roots)
+    for nm in ("s_complex::make_query", "s_complex::parse_query", "time_out::start_query"):
+        qb = prog.one(nm)
+        if qb is not None:
+            qroots.append(qb.path)
+    qreach = cg.reach(qroots)
+    config = set()
+    for st_path in mutable:
+        writers = {p for p in cg.nodes if any(a["static"] == st_path and (a["kind"] == "write" or (a["kind"] == "ref" and a.get("mutable_ref")))
+                                              for a in acc.get(p, []))}
+        if writers and not (writers & qreach):
+            config.add(st_path)
+    ctx.extra["configuration_statics"] = sorted(config)
+    process_wide |= config
     G = {}
     for p in reach:
         for a in acc.get(p, []):
